@@ -236,6 +236,12 @@ vbi_pfc_demux_feed		(vbi_pfc_demux *	dx,
 		unsigned int stream;
 		unsigned int ci;
 
+		if ((pgno ^ dx->block.pgno) & 0xF00) {
+			/* Header of another magazine, in parallel page
+			   transmission it does not end our page. */
+			return TRUE;
+		}
+
 		pgno |= vbi_unham16p (buffer + 2);
 		if (pgno < 0)
 			goto desynced;
